@@ -94,10 +94,10 @@ Theorem C16_select_independent :
 Proof. exact select_independent. Qed.
 Print Assumptions C16_select_independent.
 
-(* FINDING: it is NOT true when Put returns nil before the end of the stream, which disk.Put does for
-   the empty digest when its reader fails before yielding a byte (undecodable zstd data: Put probes
-   one byte and ignores the read error): the same call then ends OK — acknowledging data Put never
-   accepted — or with an internal error, depending on the select. *)
+(* It is NOT true of the handler alone for a Put that returns nil before the end of the stream: the same
+   call would end OK — acknowledging data Put never accepted — or with an internal error, depending on
+   the select.  disk.Put did that for the empty digest with undecodable zstd data until /repo 0b4ddfa
+   (found with this machinery); it now reads to EOF before returning nil, so nil_early_free holds. *)
 Theorem C16_select_independent_nil_early_refuted :
   exists perr maxsz present put_ok msgs k cs,
     w_status (write_handler false (PutNilEarly k) perr maxsz present put_ok msgs) = Ok cs /\
